@@ -85,6 +85,218 @@ pub fn exec_line(line: &str) -> String {
     guarded(move || run_op(op, spec, &ws))
 }
 
+fn w(s: &str) -> U256 {
+    U256::from_str_radix(s, 16).unwrap()
+}
+
+/// moduli for the ternary ops: tiny, around 2^255 (the first N with 2N > 2^256), just below 2^256,
+/// the curve primes / orders used with ADDMOD / MULMOD in practice, limb boundaries
+pub fn mod_moduli() -> Vec<U256> {
+    let one = U256::from(1);
+    vec![
+        U256::ZERO,
+        one,
+        U256::from(2),
+        U256::from(3),
+        (one << 255) - one,
+        one << 255,
+        (one << 255) + one,
+        U256::MAX - one,
+        U256::MAX,
+        // secp256k1 field prime and group order
+        w("fffffffffffffffffffffffffffffffffffffffffffffffffffffffefffffc2f"),
+        w("fffffffffffffffffffffffffffffffebaaedce6af48a03bbfd25e8cd0364141"),
+        // bn254 field prime and group order
+        w("30644e72e131a029b85045b68181585d97816a916871ca8d3c208c16d87cfd47"),
+        w("30644e72e131a029b85045b68181585d2833e84879b9709143e1f593f0000001"),
+        // secp256r1 field prime, ed25519 prime 2^255 - 19
+        w("ffffffff00000001000000000000000000000000ffffffffffffffffffffffff"),
+        w("7fffffffffffffffffffffffffffffffffffffffffffffffffffffffffffffed"),
+        (one << 128) - one,
+        one << 128,
+        (one << 128) + one,
+        one << 64,
+        (one << 64) - one,
+        (one << 192) + one,
+        U256::MAX << 128,
+        (U256::MAX >> 1) + U256::from(2) + (one << 200),
+    ]
+}
+
+/// operands relative to the modulus `m` (all arithmetic wrapping, so for m near 2^256 the values fold
+/// back to small words - still distinct shapes)
+pub fn mod_operands(rng: &mut Rng, m: U256) -> Vec<U256> {
+    let one = U256::from(1);
+    let r1 = rng.u256();
+    let r2 = rng.u256();
+    let reduced = |x: U256| if m.is_zero() { x } else { x % m };
+    let mut v = vec![
+        U256::ZERO,
+        one,
+        U256::from(2),
+        m.wrapping_sub(U256::from(2)),
+        m.wrapping_sub(one),
+        m,
+        m.wrapping_add(one),
+        m.wrapping_add(m),
+        m.wrapping_add(m).wrapping_sub(one),
+        m >> 1usize,
+        U256::wrapping_add(m >> 1usize, one),
+        one << 255,
+        (one << 255) - one,
+        U256::MAX,
+        U256::MAX - one,
+        one << 128,
+        reduced(r1),
+        reduced(r2) | one,
+        r1 | (one << 255),
+        r2,
+    ];
+    v.sort();
+    v.dedup();
+    v
+}
+
+/// triples (a, b, N) built from relations: a + b = 2^256 + k (carry out of the addition), reduced
+/// operands of a modulus above 2^255 whose sum wraps, a * b just below / at / above 2^256 and 2^512
+pub fn mod_relation_triples(rng: &mut Rng, n: usize) -> Vec<[U256; 3]> {
+    let one = U256::from(1);
+    let big = mod_moduli();
+    let mut out = Vec::new();
+    let modulus = |rng: &mut Rng| -> U256 {
+        match rng.below(4) {
+            0 => *rng.pick(&big),
+            1 => rng.u256() | (one << 255),
+            2 => U256::MAX - U256::from(rng.below(1 << 20)),
+            _ => rng.word(),
+        }
+    };
+    for _ in 0..n {
+        // a + b = 2^256 + k for small / random k
+        let a: U256 = rng.u256() | (one << 255usize);
+        let k = if rng.chance(1, 2) { U256::from(rng.below(4)) } else { rng.u256() >> 1usize };
+        let b = a.wrapping_neg().wrapping_add(k);
+        out.push([a, b, modulus(rng)]);
+        out.push([a, b, a]);
+        out.push([a, b, a.wrapping_add(one)]);
+        // reduced operands of a modulus m > 2^255 with a + b >= 2^256
+        let m: U256 = rng.u256() | (one << 255usize) | (one << 254usize);
+        let x = m - one - U256::from(rng.below(3));
+        let y = m.wrapping_neg().wrapping_add(U256::from(rng.below(5))).max(one) % m;
+        out.push([x, x, m]);
+        out.push([x, m.wrapping_neg().wrapping_add(one), m]); // x + y = 2^256 (+-) small
+        out.push([x, y, m]);
+        out.push([m - one, rng.u256() % m, m]);
+        // a * b around 2^256: a = 2^j, b = 2^(256-j) (+-1)
+        let j = rng.range(1, 255) as usize;
+        let p: U256 = one << j;
+        let q: U256 = one << (256 - j);
+        for d in [U256::ZERO, one] {
+            out.push([p, q.wrapping_sub(d), modulus(rng)]);
+            out.push([p.wrapping_add(d), q, modulus(rng)]);
+        }
+        // a * b around 2^512: both operands near 2^256
+        let s = U256::MAX - U256::from(rng.below(3));
+        let t = U256::MAX - U256::from(rng.below(3));
+        out.push([s, t, modulus(rng)]);
+        out.push([s, t, U256::MAX - U256::from(rng.below(3))]);
+        // floor(sqrt)-like operands: (2^128 +- d)^2 crosses 2^256
+        let h: U256 = U256::from(1u128 << 127).wrapping_add(U256::from(1u128 << 127)).wrapping_add(U256::from(rng.below(3))).wrapping_sub(one);
+        out.push([h, h, modulus(rng)]);
+        out.push([h, h.wrapping_add(one), U256::MAX]);
+    }
+    out
+}
+
+pub fn exp_shapes(rng: &mut Rng) -> (Vec<U256>, Vec<U256>) {
+    let one = U256::from(1);
+    let mut bases = vec![
+        U256::ZERO,
+        one,
+        U256::from(2),
+        U256::from(3),
+        U256::from(10),
+        U256::from(256),
+        U256::MAX,
+        U256::MAX - one,
+        one << 255,
+        (one << 255) + one,
+        one << 128,
+        (one << 128) + one,
+        one << 16,
+        U256::from(u64::MAX),
+        rng.u256() | one,
+        rng.u256() & !one,
+        (rng.u256() << 64) | one,
+    ];
+    bases.sort();
+    bases.dedup();
+    let mut exps = vec![U256::ZERO, U256::from(3), U256::from(5), U256::from(254), U256::from(257), U256::MAX, U256::MAX - one];
+    for k in 0..256usize {
+        exps.push(one << k);
+        if k % 8 == 0 || k % 8 == 7 {
+            exps.push((one << k) - one);
+            exps.push((one << k) + one);
+        }
+    }
+    exps.push(rng.u256());
+    exps.push(U256::from(rng.next()));
+    exps.sort();
+    exps.dedup();
+    (bases, exps)
+}
+
+pub fn index_shapes(rng: &mut Rng) -> (Vec<U256>, Vec<U256>) {
+    let one = U256::from(1);
+    let lows: [u64; 14] = [0, 1, 7, 8, 15, 29, 30, 31, 32, 33, 254, 255, 256, 257];
+    let mut idx = Vec::new();
+    for l in lows {
+        let l = U256::from(l);
+        idx.push(l);
+        for sh in [32usize, 64, 128, 192, 255] {
+            idx.push(l | (one << sh));
+        }
+        idx.push(l | (U256::from(rng.next() | 1) << 64));
+    }
+    for l in [30u64, 31, 32, 255, 256] {
+        // the threshold itself in an upper limb, low limb zero
+        for sh in [64usize, 128, 192] {
+            idx.push(U256::from(l) << sh);
+        }
+    }
+    idx.push(U256::MAX);
+    idx.push(U256::from(u64::MAX));
+    idx.push(U256::from(u32::MAX));
+    idx.push(U256::from(usize::MAX) + one);
+    idx.sort();
+    idx.dedup();
+    let r = rng.u256();
+    let mut vals = vec![
+        U256::ZERO,
+        one,
+        U256::from(0x7f),
+        U256::from(0x80),
+        U256::from(0xff),
+        U256::from(0x7fff),
+        U256::from(0x8000),
+        U256::MAX,
+        U256::MAX - one,
+        one << 255,
+        (one << 255) - one,
+        (one << 255) | one,
+        one << 254,
+        w("8080808080808080808080808080808080808080808080808080808080808080"),
+        w("7f7f7f7f7f7f7f7f7f7f7f7f7f7f7f7f7f7f7f7f7f7f7f7f7f7f7f7f7f7f7f7f"),
+        w("0102030405060708090a0b0c0d0e0f101112131415161718191a1b1c1d1e1f20"),
+        w("fffefdfcfbfaf9f8f7f6f5f4f3f2f1f0efeeedecebeae9e8e7e6e5e4e3e2e1e0"),
+        r | (one << 255),
+        r >> 1,
+    ];
+    vals.sort();
+    vals.dedup();
+    (idx, vals)
+}
+
 pub fn gen(seed: u64, n: usize) -> Vec<String> {
     let mut rng = Rng::new(seed ^ 0xC03);
     let bw = boundary_words();
@@ -122,6 +334,49 @@ pub fn gen(seed: u64, n: usize) -> Vec<String> {
                 }
             }
             _ => {}
+        }
+    }
+    // stream 1b: ADDMOD / MULMOD, complete cross product over a dedicated boundary set for (a, b, N):
+    // every modulus of `mod_moduli` x every pair of `mod_operands(N)` (operands chosen relative to N:
+    // N-1, N, N+1, 2N, values just below 2^256, a reduced and an unreduced random word)
+    for m in mod_moduli() {
+        let ops = mod_operands(&mut rng, m);
+        for &(name, opc) in &[("addmod", 0x08u8), ("mulmod", 0x09u8)] {
+            for a in &ops {
+                for b in &ops {
+                    emit(&mut rng, name, opc, &[*a, *b, m]);
+                }
+            }
+        }
+    }
+    // stream 1c: relation-driven triples for the ternary ops (carry out of the 256-bit sum, products
+    // crossing 2^256 and 2^512) with boundary, near-2^256 and random moduli
+    for ws in mod_relation_triples(&mut rng, 40 + n / 100) {
+        emit(&mut rng, "addmod", 0x08, &ws);
+        emit(&mut rng, "mulmod", 0x09, &ws);
+    }
+    // stream 1d: EXP shapes (bases 0, 1, 2, 3, -1, -2, 2^k, odd / even random; exponents 0, 1, 2, 255, 256,
+    // 257, every 2^k, 2^k - 1, all-ones, one byte length each)
+    {
+        let (bases, exps) = exp_shapes(&mut rng);
+        for a in &bases {
+            for e in &exps {
+                emit(&mut rng, "exp", 0x0a, &[*a, *e]);
+            }
+        }
+    }
+    // stream 1e: SIGNEXTEND / BYTE / SHL / SHR / SAR with index operands whose LOW limb looks small but
+    // whose upper limbs are set, and the exact thresholds (30, 31, 32 / 255, 256, 257) in every limb
+    {
+        let (idx, vals) = index_shapes(&mut rng);
+        for &(name, opc) in
+            &[("signextend", 0x0bu8), ("byte", 0x1a), ("shl", 0x1b), ("shr", 0x1c), ("sar", 0x1d)]
+        {
+            for i in &idx {
+                for v in &vals {
+                    emit(&mut rng, name, opc, &[*i, *v]);
+                }
+            }
         }
     }
     // stream 2: random / biased words
